@@ -64,11 +64,12 @@ def unit_text_ok(u):
         return False
 
 def run(data):
-    fails, counts = [], {}
+    fails, counts, case_ids = [], {}, []
     def singleton(kind, o):
         before = meta(o)
         for name, f in CODECS:
             counts[f"{kind}:{name}"] = counts.get(f"{kind}:{name}", 0) + 1
+            case_ids.append(f"{kind}:{name}:{C.oid(o)}")
             try:
                 r = f(o)
                 if r is not o:
@@ -102,6 +103,7 @@ def run(data):
         codecs = CODECS + [("sql-composite", lambda o: Quantity(*o.__composite_values__()))]
         for name, f in codecs:
             counts[f"quantity:{name}"] = counts.get(f"quantity:{name}", 0) + 1
+            case_ids.append(f"quantity:{name}:{type(q.magnitude).__name__}:{q.magnitude!r}:{C.oid(q.unit)}")
             try:
                 r = f(q)
                 bad = None
@@ -113,6 +115,6 @@ def run(data):
                 if bad: fails.append({"codec": name, "kind": "quantity", "object": describe(q), "got": describe(r), "what": bad, "spec": qs, "unit_text_ok": unit_text_ok(q.unit)})
             except Exception as ex:  # noqa
                 fails.append({"codec": name, "kind": "quantity", "object": describe(q), "what": "raised " + implib.errclass(ex) + ": " + str(ex)[:100], "spec": qs, "unit_text_ok": unit_text_ok(q.unit)})
-    return {"counts": counts, "fails": fails, "registered": {"dimensions": len(Dimension._known), "prefixes": len(Prefix._known), "units": len(Unit._known)}}
+    return {"counts": counts, "fails": fails, "case_ids": case_ids, "registered": {"dimensions": len(Dimension._known), "prefixes": len(Prefix._known), "units": len(Unit._known)}}
 
 implib.main_io(run)
